@@ -9,12 +9,12 @@ theorem rangeByScore_stream (z : ZSet) (min max : F64) (offset limit : Int) (des
     (h : ¬ (limit = 0 ∨ offset < 0)) :
     rangeByScore z min max offset limit desc mode =
       loopS min max mode limit
-        ((ostream desc (if desc then getLastInRange z.sl min max else getFirstInRange z.sl min max)).drop
-          offset.toNat) 0 (z.sl.length + 1) [] := by
+        (ostream desc (if desc then getLastInRange z.sl min max else getFirstInRange z.sl min max))
+        offset (z.sl.length + 1) [] := by
   unfold rangeByScore
   rw [if_neg h]
   simp only
-  rw [scoreLoop_eq, ostream_skipN desc _ offset _ rfl]
+  rw [scoreLoop_eq]
 
 theorem aboveRange_out (l : List Item) (hpw : l.Pairwise ILt) (hg : ∀ a ∈ l, Good a)
     (max : F64) (hmax : F64.isNaN max = false) (min : F64) :
@@ -44,116 +44,6 @@ theorem aboveRange_sub (l : List Item) (min max : F64) : (aboveRange l min max).
 theorem belowRange_sub (l : List Item) (min max : F64) : (belowRange l min max).Sublist l :=
   (List.takeWhile_sublist _).trans (List.takeWhile_sublist _)
 
-/-- an item outside the closed interval of a non-empty range is never an excluded bound -/
-theorem keepB_of_out (min max : F64) (hmin : F64.isNaN min = false) (hmax : F64.isNaN max = false)
-    (mode : Nat) (r b : Item) (hr : Good r) (hb : Good b) (hrin : inC min max r = true)
-    (hout : F64.ge max b.1 = false ∨ F64.gt min b.1 = true) : keepB min max mode b = true := by
-  have hrn : F64.isNaN r.1 = false := hr
-  have hbn : F64.isNaN b.1 = false := hb
-  simp only [inC, F64.le, F64.ge, hmin, hmax, hrn, Bool.not_false, Bool.true_and, Bool.and_eq_true,
-    decide_eq_true_eq] at hrin
-  simp only [F64.ge, F64.le, F64.gt, F64.lt, hmin, hmax, hbn, Bool.not_false, Bool.true_and,
-    decide_eq_false_iff_not, decide_eq_true_eq] at hout
-  have e1 : ¬ F64.key b.1 = F64.key min := by omega
-  have e2 : ¬ F64.key b.1 = F64.key max := by omega
-  simp [keepB, F64.eq, hmin, hmax, hbn, e1, e2]
-
-theorem takeLim_take_one (limit : Int) (hl : limit ≠ 0) (L : List Item) :
-    takeLim limit 0 (L.take 1) = L.take 1 := by
-  unfold takeLim
-  split
-  · rfl
-  · rw [List.take_take]
-    have : min (limit - ((0 : Nat) : Int)).toNat 1 = 1 := by omega
-    rw [this]
-
-/-- The model's answer for every offset, limit, direction and mode (non-NaN bounds):
-    `R` is the closed range in walk order, `B` what the walk meets after it.
-    * offset inside the closed range: LIMIT is applied to the *closed* range from the offset, and
-      only then are exclusive-bound hits dropped;
-    * offset at or beyond its end (range non-empty): the single node the cursor landed on — which
-      is outside the range — is returned. -/
-theorem rangeByScore_closed {z : ZSet} (h : Inv z) (min max : F64)
-    (hmin : F64.isNaN min = false) (hmax : F64.isNaN max = false) (offset limit : Int) (desc : Bool)
-    (mode : Nat) :
-    rangeByScore z min max offset limit desc mode =
-      if limit = 0 ∨ offset < 0 then [] else
-      let R := if desc then (z.sl.filter (inC min max)).reverse else z.sl.filter (inC min max)
-      let B := if desc then (belowRange z.sl min max).reverse else aboveRange z.sl min max
-      if offset.toNat < R.length then
-        (takeLim limit 0 (R.drop offset.toNat)).filter (keepB min max mode)
-      else if R = [] then [] else (B.drop (offset.toNat - R.length)).take 1 := by
-  by_cases hlim : limit = 0 ∨ offset < 0
-  · rw [if_pos hlim]; unfold rangeByScore; rw [if_pos hlim]
-  · rw [if_neg hlim, rangeByScore_stream z min max offset limit desc mode hlim]
-    have hl0 : limit ≠ 0 := fun e => hlim (Or.inl e)
-    have hpw := h.slPW
-    have hg := h.good
-    have hRin : ∀ a ∈ z.sl.filter (inC min max), inC min max a = true :=
-      fun a ha => (List.mem_filter.mp ha).2
-    cases desc with
-    | false =>
-      simp only [Bool.false_eq_true, if_false]
-      rw [first_stream z.sl hpw hg min max hmin hmax]
-      by_cases hRe : z.sl.filter (inC min max) = []
-      · simp [hRe, loopS]
-      · rw [if_neg hRe, if_neg hRe]
-        have hBout := aboveRange_out z.sl hpw hg max hmax min
-        have hBsub := aboveRange_sub z.sl min max
-        have hBnot : ∀ b ∈ aboveRange z.sl min max, inC min max b = false := by
-          intro b hb; simp [inC, hBout b hb]
-        have hlen : (z.sl.filter (inC min max) ++ aboveRange z.sl min max).length < z.sl.length + 1 := by
-          have hD := (first_decomp z.sl hpw hg min max hmin hmax).1
-          rw [← hD]
-          have := (List.dropWhile_sublist (fun n : Item => F64.gt min n.1) (l := z.sl)).length_le
-          omega
-        rw [stream_closed min max mode limit _ _ hRin hBnot offset.toNat _ hlen]
-        split
-        · rfl
-        · obtain ⟨r, hr⟩ := List.exists_mem_of_ne_nil _ hRe
-          rw [takeLim_take_one limit hl0]
-          rw [List.filter_eq_self.mpr]
-          intro b hb
-          have hbB : b ∈ aboveRange z.sl min max := List.mem_of_mem_drop (List.mem_of_mem_take hb)
-          exact keepB_of_out min max hmin hmax mode r b (hg r (List.mem_filter.mp hr).1)
-            (hg b (hBsub.subset hbB)) (hRin r hr) (Or.inl (hBout b hbB))
-    | true =>
-      simp only [if_true]
-      rw [last_stream z.sl hpw hg min max hmin hmax]
-      by_cases hRe : z.sl.filter (inC min max) = []
-      · simp [hRe, loopS]
-      · have hRe' : ¬ (z.sl.filter (inC min max)).reverse = [] := by
-          simpa using hRe
-        rw [if_neg hRe, if_neg hRe']
-        have hBout := belowRange_out z.sl hpw hg min hmin max
-        have hBsub := belowRange_sub z.sl min max
-        have hBnot : ∀ b ∈ (belowRange z.sl min max).reverse, inC min max b = false := by
-          intro b hb
-          have hb' := List.mem_reverse.mp hb
-          have hbg : Good b := hg b (hBsub.subset hb')
-          rw [inC_eq min max hmin b hbg, hBout b hb']
-          rfl
-        have hRin' : ∀ a ∈ (z.sl.filter (inC min max)).reverse, inC min max a = true :=
-          fun a ha => hRin a (List.mem_reverse.mp ha)
-        have hlen : ((z.sl.filter (inC min max)).reverse ++ (belowRange z.sl min max).reverse).length
-            < z.sl.length + 1 := by
-          have hT := (last_decomp z.sl hpw hg min max hmin hmax).1
-          have := (List.takeWhile_sublist (fun n : Item => F64.ge max n.1) (l := z.sl)).length_le
-          rw [hT] at this
-          simp only [List.length_append, List.length_reverse] at this ⊢
-          omega
-        rw [stream_closed min max mode limit _ _ hRin' hBnot offset.toNat _ hlen]
-        split
-        · rfl
-        · obtain ⟨r, hr⟩ := List.exists_mem_of_ne_nil _ hRe
-          rw [takeLim_take_one limit hl0]
-          rw [List.filter_eq_self.mpr]
-          intro b hb
-          have hbB : b ∈ belowRange z.sl min max :=
-            List.mem_reverse.mp (List.mem_of_mem_drop (List.mem_of_mem_take hb))
-          exact keepB_of_out min max hmin hmax mode r b (hg r (List.mem_filter.mp hr).1)
-            (hg b (hBsub.subset hbB)) (hRin r hr) (Or.inr (hBout b hbB))
-
 /-! ### against the reference -/
 
 theorem inRange_eq (min max : F64) (hmin : F64.isNaN min = false) (hmax : F64.isNaN max = false)
@@ -180,108 +70,141 @@ theorem filter_inRange {z : ZSet} (h : Inv z) (min max : F64)
   intro a ha
   rw [inRange_eq min max hmin hmax mode a (h.good a ha), Bool.and_comm]
 
-theorem closed_keep (min max : F64) (mode : Nat) (h1 : minOpen mode = false) (h2 : maxOpen mode = false)
-    (a : Item) : keepB min max mode a = true := by
-  simp only [minOpen, maxOpen, decide_eq_false_iff_not] at h1 h2
-  simp [keepB, h1, h2]
-
-/-- ZRANGEBYSCORE / ZREVRANGEBYSCORE without LIMIT (offset 0, negative count): every mode -/
-theorem rangeByScore_noLimit {z : ZSet} (h : Inv z) (min max : F64)
-    (hmin : F64.isNaN min = false) (hmax : F64.isNaN max = false) (limit : Int) (hl : limit < 0)
-    (desc : Bool) (mode : Nat) :
-    rangeByScore z min max 0 limit desc mode =
-      if desc then Spec.ZSet.revRangeByScore z min max (minOpen mode) (maxOpen mode)
-      else Spec.ZSet.rangeByScore z min max (minOpen mode) (maxOpen mode) := by
-  rw [rangeByScore_closed h min max hmin hmax 0 limit desc mode]
-  have hc : ¬ (limit = 0 ∨ (0 : Int) < 0) := by omega
-  rw [if_neg hc]
-  unfold Spec.ZSet.revRangeByScore
-  rw [filter_inRange h min max hmin hmax mode]
-  simp only [Int.toNat_zero, List.drop_zero, Nat.zero_sub]
-  have htl : ∀ L : List Item, takeLim limit 0 L = L := by intro L; simp [takeLim, hl]
+/-- the part of the walk inside the closed interval is the closed range (in walk order), and the
+    walk is never longer than the chain -/
+theorem walk_closed_range {z : ZSet} (h : Inv z) (min max : F64)
+    (hmin : F64.isNaN min = false) (hmax : F64.isNaN max = false) (desc : Bool) :
+    let S := ostream desc (if desc then getLastInRange z.sl min max else getFirstInRange z.sl min max)
+    S.takeWhile (inC min max)
+        = (if desc then (z.sl.filter (inC min max)).reverse else z.sl.filter (inC min max)) ∧
+      S.length ≤ z.sl.length := by
+  have hpw := h.slPW
+  have hg := h.good
+  have hRin : ∀ a ∈ z.sl.filter (inC min max), inC min max a = true :=
+    fun a ha => (List.mem_filter.mp ha).2
   cases desc with
   | false =>
-    simp only [Bool.false_eq_true, if_false, htl]
+    simp only [Bool.false_eq_true, if_false]
+    rw [first_stream z.sl hpw hg min max hmin hmax]
     by_cases hRe : z.sl.filter (inC min max) = []
     · simp [hRe]
-    · have : 0 < (z.sl.filter (inC min max)).length := List.length_pos_iff.mpr hRe
-      rw [if_pos this]
+    · rw [if_neg hRe]
+      have hBout := aboveRange_out z.sl hpw hg max hmax min
+      have hBnot : ∀ b ∈ aboveRange z.sl min max, inC min max b = false := by
+        intro b hb; simp [inC, hBout b hb]
+      refine ⟨takeWhile_inC_stream min max _ _ hRin hBnot, ?_⟩
+      have hD := (first_decomp z.sl hpw hg min max hmin hmax).1
+      rw [← hD]
+      exact (List.dropWhile_sublist (fun n : Item => F64.gt min n.1) (l := z.sl)).length_le
   | true =>
-    simp only [if_true, htl, List.length_reverse]
+    simp only [if_true]
+    rw [last_stream z.sl hpw hg min max hmin hmax]
     by_cases hRe : z.sl.filter (inC min max) = []
     · simp [hRe]
-    · have : 0 < (z.sl.filter (inC min max)).length := List.length_pos_iff.mpr hRe
-      rw [if_pos this, List.filter_reverse]
+    · rw [if_neg hRe]
+      have hBout := belowRange_out z.sl hpw hg min hmin max
+      have hBsub := belowRange_sub z.sl min max
+      have hBnot : ∀ b ∈ (belowRange z.sl min max).reverse, inC min max b = false := by
+        intro b hb
+        have hb' := List.mem_reverse.mp hb
+        have hbg : Good b := hg b (hBsub.subset hb')
+        rw [inC_eq min max hmin b hbg, hBout b hb']
+        rfl
+      have hRin' : ∀ a ∈ (z.sl.filter (inC min max)).reverse, inC min max a = true :=
+        fun a ha => hRin a (List.mem_reverse.mp ha)
+      refine ⟨takeWhile_inC_stream min max _ _ hRin' hBnot, ?_⟩
+      have hT := (last_decomp z.sl hpw hg min max hmin hmax).1
+      have := (List.takeWhile_sublist (fun n : Item => F64.ge max n.1) (l := z.sl)).length_le
+      rw [hT] at this
+      simp only [List.length_append, List.length_reverse] at this ⊢
+      omega
 
-theorem count_closed {z : ZSet} (h : Inv z) (min max : F64)
-    (hmin : F64.isNaN min = false) (hmax : F64.isNaN max = false) :
-    Spec.ZSet.count z min max false false = (z.sl.filter (inC min max)).length := by
-  unfold Spec.ZSet.count
-  have := filter_inRange h min max hmin hmax 0
-  have e1 : minOpen 0 = false := by decide
-  have e2 : maxOpen 0 = false := by decide
-  rw [e1, e2] at this
-  rw [this, List.filter_eq_self.mpr (fun a _ => closed_keep min max 0 e1 e2 a)]
+theorem lim_eq_limitBy (l : List Item) (offset limit : Int) (h : ¬ (limit = 0 ∨ offset < 0)) :
+    lim limit 0 (l.drop offset.toNat) = Spec.ZSet.limitBy l offset limit := by
+  unfold lim Spec.ZSet.limitBy
+  have h1 : ¬ offset < 0 := fun e => h (Or.inr e)
+  rw [if_neg h1]
+  simp only [Nat.sub_zero]
+  by_cases hl : limit > 0
+  · rw [if_pos hl, if_neg (by omega)]
+  · rw [if_neg hl, if_pos (by omega)]
 
-/-- with LIMIT: exactly the reference, provided no member sits on an exclusive bound (always true
-    for closed bounds) and the offset falls inside the closed range (or the range is empty) -/
-theorem rangeByScore_limit {z : ZSet} (h : Inv z) (min max : F64)
+/-- ZRANGEBYSCORE / ZREVRANGEBYSCORE with non-NaN bounds: every mode, offset and limit -/
+theorem rangeByScore_spec_nonNaN {z : ZSet} (h : Inv z) (min max : F64)
     (hmin : F64.isNaN min = false) (hmax : F64.isNaN max = false) (offset limit : Int) (desc : Bool)
-    (mode : Nat)
-    (hk : ∀ a ∈ z.sl, inC min max a = true → keepB min max mode a = true)
-    (hoff : offset.toNat < Spec.ZSet.count z min max false false ∨
-      Spec.ZSet.count z min max false false = 0) :
+    (mode : Nat) :
     rangeByScore z min max offset limit desc mode =
       if desc then Spec.ZSet.revRangeByScoreLimit z min max (minOpen mode) (maxOpen mode) offset limit
       else Spec.ZSet.rangeByScoreLimit z min max (minOpen mode) (maxOpen mode) offset limit := by
-  rw [rangeByScore_closed h min max hmin hmax offset limit desc mode]
   unfold Spec.ZSet.revRangeByScoreLimit Spec.ZSet.rangeByScoreLimit Spec.ZSet.revRangeByScore
-  have hspec := filter_inRange h min max hmin hmax mode
-  have hkR : (z.sl.filter (inC min max)).filter (keepB min max mode) = z.sl.filter (inC min max) :=
-    List.filter_eq_self.mpr (fun a ha => hk a (List.mem_filter.mp ha).1 (List.mem_filter.mp ha).2)
-  rw [hkR] at hspec
-  have hkeep : ∀ L : List Item, (∀ a ∈ L, a ∈ z.sl.filter (inC min max)) →
-      L.filter (keepB min max mode) = L :=
-    fun L hL => List.filter_eq_self.mpr
-      (fun a ha => hk a (List.mem_filter.mp (hL a ha)).1 (List.mem_filter.mp (hL a ha)).2)
-  rw [count_closed h min max hmin hmax] at hoff
-  rw [hspec]
-  unfold Spec.ZSet.limitBy
-  by_cases hneg : offset < 0
-  · simp [hneg]
-  · by_cases hl0 : limit = 0
-    · subst hl0
-      simp [hneg]
-    · have hc : ¬ (limit = 0 ∨ offset < 0) := by omega
-      rw [if_neg hc]
-      simp only [hneg, if_false]
-      have htl : ∀ L : List Item, takeLim limit 0 L = if limit < 0 then L else L.take limit.toNat := by
-        intro L; unfold takeLim; simp
-      have htl_sub : ∀ L : List Item, ∀ a ∈ takeLim limit 0 L, a ∈ L := by
-        intro L a ha
-        rw [htl] at ha
-        split at ha
-        · exact ha
-        · exact List.mem_of_mem_take ha
-      cases desc with
-      | false =>
-        simp only [Bool.false_eq_true, if_false]
-        rcases hoff with hoff | hoff
-        · rw [if_pos hoff, hkeep _ (fun a ha => List.mem_of_mem_drop (htl_sub _ a ha)), htl]
-        · have hRe := List.eq_nil_of_length_eq_zero hoff
-          simp [hRe]
-      | true =>
-        simp only [if_true, List.length_reverse]
-        rcases hoff with hoff | hoff
-        · rw [if_pos hoff, hkeep _ (fun a ha =>
-            List.mem_reverse.mp (List.mem_of_mem_drop (htl_sub _ a ha))), htl]
-        · have hRe := List.eq_nil_of_length_eq_zero hoff
-          simp [hRe]
+  rw [filter_inRange h min max hmin hmax mode]
+  by_cases hlim : limit = 0 ∨ offset < 0
+  · have hm : rangeByScore z min max offset limit desc mode = [] := by
+      unfold rangeByScore; rw [if_pos hlim]
+    rw [hm]
+    unfold Spec.ZSet.limitBy
+    rcases hlim with hl | ho
+    · subst hl; cases desc <;> simp
+    · cases desc <;> simp [ho]
+  · rw [rangeByScore_stream z min max offset limit desc mode hlim]
+    obtain ⟨htw, hlen⟩ := walk_closed_range h min max hmin hmax desc
+    rw [loopS_closed min max mode limit _ offset _ [] (by omega) (by intro hl; simpa using hl), htw]
+    simp only [List.reverse_nil, List.nil_append, List.length_nil]
+    cases desc with
+    | false =>
+      simp only [Bool.false_eq_true, if_false]
+      exact lim_eq_limitBy _ offset limit hlim
+    | true =>
+      simp only [if_true]
+      rw [List.filter_reverse]
+      exact lim_eq_limitBy _ offset limit hlim
 
-theorem skipN_zero (desc : Bool) (oc : Option Cursor) : skipN desc oc 0 = oc := by
-  cases oc with
-  | none => rw [skipN]
-  | some c => rw [skipN]; simp
+/-- a NaN bound: the model returns nothing, and so does the reference -/
+theorem rangeByScore_nan (z : ZSet) (min max : F64) (hn : F64.isNaN min = true ∨ F64.isNaN max = true)
+    (offset limit : Int) (desc : Bool) (mode : Nat) :
+    rangeByScore z min max offset limit desc mode = [] := by
+  have hout : ∀ c : Item, inC min max c = false := by
+    intro c
+    unfold inC F64.ge F64.le
+    rcases hn with h | h <;> simp [h]
+  by_cases hlim : limit = 0 ∨ offset < 0
+  · unfold rangeByScore; rw [if_pos hlim]
+  · rw [rangeByScore_stream z min max offset limit desc mode hlim]
+    generalize ostream desc _ = S
+    cases S with
+    | nil => simp [loopS]
+    | cons c rest => simp [loopS, inC_unfold, hout c]
+
+theorem spec_rangeByScore_nan (z : ZSet) (min max : F64)
+    (hn : F64.isNaN min = true ∨ F64.isNaN max = true) (mo xo : Bool) :
+    Spec.ZSet.rangeByScore z min max mo xo = [] := by
+  unfold Spec.ZSet.rangeByScore
+  rw [List.filter_eq_nil_iff]
+  intro a _
+  unfold Spec.ZSet.inRange Spec.ZSet.aboveMin Spec.ZSet.belowMax F64.lt F64.le
+  rcases hn with h | h <;> cases mo <;> cases xo <;> simp [h]
+
+/-- ZRANGEBYSCORE / ZREVRANGEBYSCORE: every bound (NaN included), mode, offset, limit, direction -/
+theorem rangeByScore_spec {z : ZSet} (h : Inv z) (min max : F64) (offset limit : Int) (desc : Bool)
+    (mode : Nat) :
+    rangeByScore z min max offset limit desc mode =
+      if desc then Spec.ZSet.revRangeByScoreLimit z min max (minOpen mode) (maxOpen mode) offset limit
+      else Spec.ZSet.rangeByScoreLimit z min max (minOpen mode) (maxOpen mode) offset limit := by
+  by_cases hn : F64.isNaN min = true ∨ F64.isNaN max = true
+  · rw [rangeByScore_nan z min max hn]
+    unfold Spec.ZSet.revRangeByScoreLimit Spec.ZSet.rangeByScoreLimit Spec.ZSet.revRangeByScore
+    rw [spec_rangeByScore_nan z min max hn]
+    unfold Spec.ZSet.limitBy
+    cases desc <;> simp
+  · have h1 : F64.isNaN min = false := by
+      cases hm : F64.isNaN min with
+      | false => rfl
+      | true => exact absurd (Or.inl hm) hn
+    have h2 : F64.isNaN max = false := by
+      cases hm : F64.isNaN max with
+      | false => rfl
+      | true => exact absurd (Or.inr hm) hn
+    exact rangeByScore_spec_nonNaN h min max h1 h2 offset limit desc mode
 
 /-! ### ZCOUNT -/
 
